@@ -124,6 +124,17 @@ func (r *raftState) setLastSnapshot(index, term uint64) {
 	r.lastLock.Unlock()
 }
 
+// setLastSnapshotIfNewer records the snapshot unless one at least as new is
+// recorded already.
+func (r *raftState) setLastSnapshotIfNewer(index, term uint64) {
+	r.lastLock.Lock()
+	if index > r.lastSnapshotIndex {
+		r.lastSnapshotIndex = index
+		r.lastSnapshotTerm = term
+	}
+	r.lastLock.Unlock()
+}
+
 func (r *raftState) getCommitIndex() uint64 {
 	return atomic.LoadUint64(&r.commitIndex)
 }
